@@ -1209,6 +1209,9 @@ impl Vm {
         self.active_fiber_mut().frames.pop();
         if self.active_fiber().has_finished() {
             if self.active_fiber().caller.is_some() {
+                // A finished fiber never runs again: what is left on its stack (the closure, its
+                // arguments) must not stay reachable through it.
+                self.active_fiber_mut().stack.clear();
                 self.unload_fiber(None)?;
                 self.poke(0, result);
                 return Ok(None);
